@@ -93,7 +93,7 @@ func latest(d desc) int {
 }
 
 // registryOwn: disagreements about what the registry itself decides (C13's business)
-var registryOwn = map[string]bool{"accepted-text-rejected": true, "duplicate-accepted": true, "bare-name-differs": true, "import-binding-differs": true}
+var registryOwn = map[string]bool{"valid-set-reports-errors": true, "accepted-text-rejected": true, "duplicate-accepted": true, "bare-name-differs": true, "import-binding-differs": true}
 
 func classOf(c *cas) string {
 	if c.Mode == "fs" {
@@ -121,7 +121,8 @@ func classify(kind byte, body []byte) string {
 
 func moduleText(d desc) string {
 	var sb strings.Builder
-	fmt.Fprintf(&sb, "module %s { namespace \"urn:%s\"; prefix %s; description %q;\n", d.Name, d.Name, d.Name, d.Tag)
+	// every revision has an import of its own to link (module h is loaded first) and uses a grouping from there
+	fmt.Fprintf(&sb, "module %s { namespace \"urn:%s\"; prefix %s; import h { prefix h; } description %q;\n", d.Name, d.Name, d.Name, d.Tag)
 	revs := append([]int{}, d.Revs...)
 	sort.Sort(sort.Reverse(sort.IntSlice(revs)))
 	if len(revs) > 1 && len(d.Tag)%2 == 1 {
@@ -132,7 +133,7 @@ func moduleText(d desc) string {
 	}
 	// a choice with a shorthand member and an augment of the module's own: whichever revisions are loaded, every tree is
 	// swept, gets its implicit cases and its own augments (C04)
-	fmt.Fprintf(&sb, "  container c { leaf x { type string; default %q; } choice ch { leaf sh { type string; } } }\n", d.Tag)
+	fmt.Fprintf(&sb, "  container c { leaf x { type string; default %q; } choice ch { leaf sh { type string; } } uses h:hg; }\n", d.Tag)
 	fmt.Fprintf(&sb, "  augment \"/%s:c\" { leaf own-aug { type string; } choice och { container oc; } }\n", d.Name)
 	sb.WriteString("}\n")
 	return sb.String()
@@ -177,6 +178,9 @@ func exec(kind byte, body []byte) *core.Verdict {
 	defer os.RemoveAll(tmp)
 	os.Chdir(tmp)
 	ms := yang.NewModules()
+	if err := ms.Parse(`module h { namespace "urn:h"; prefix h; grouping hg { leaf hl { type string; } } }`, "h.yang"); err != nil {
+		return &core.Verdict{Infra: "helper module: " + err.Error()}
+	}
 	for i, d := range c.Loads {
 		hist = append(hist, d.Tag)
 		err := ms.Parse(moduleText(d), fmt.Sprintf("%s-%d.yang", d.Tag, i))
@@ -222,6 +226,12 @@ func exec(kind byte, body []byte) *core.Verdict {
 	for _, want := range c.Imports {
 		if want == "none" {
 			allBound = false
+		}
+	}
+	if allBound && len(perrs) > 0 {
+		// every text is a valid module and every import names something loaded: each revision is linked and processed
+		if r := fail("valid-set-reports-errors", "every load was accepted and every import is satisfied, Process reports %v", perrs); !r.OK || r.Out {
+			return r
 		}
 	}
 	if allBound && len(perrs) == 0 {
